@@ -7,8 +7,8 @@ CONSTANTS
   ScoreNone = FALSE
   HeapTakeover = 10
   MaxCalls = 3
-  NTerms = 3
-  Family = "replayq"
+  NTerms = 2
+  Family = "core2"
   DropK1 = FALSE
   Queries <- MCQueries
   FixEmptySnapshot = TRUE
